@@ -81,6 +81,9 @@ def alistSet {κ ν : Type} [BEq κ] (d : AList κ ν) (k : κ) (v : ν) : AList
 /-- `s.add(x)` on a set kept as a duplicate-free list -/
 def pySetAdd {α : Type} [BEq α] (s : List α) (x : α) : List α := if s.elem x then s else s ++ [x]
 
+/-- Python `l[lo:hi]` for non-negative bounds (bounds past the end are clipped, as Python does) -/
+def pySliceL {α : Type} (l : List α) (lo hi : Nat) : List α := (l.take hi).drop lo
+
 /-- `list(itertools.compress(data, selectors))` -/
 def pyCompress {α : Type} (data : List α) (sel : List Bool) : List α := ((data.zip sel).filter (·.2)).map (·.1)
 
